@@ -170,11 +170,13 @@ def run_pair(ctx, ops, harness, tag="ops", timeout=1200, driver_args=()):
     """Run the same op lines through G (harness) and M (driver); returns (g_lines, m_lines)."""
     opsf = f"{ctx.work}/{tag}.ops"
     gout = f"{ctx.work}/{tag}.g"
+    annf = f"{ctx.work}/{tag}.ann"
     open(opsf, "w").write("\n".join(ops) + "\n")
-    if os.path.exists(gout):
-        os.remove(gout)
+    for f in (gout, annf):
+        if os.path.exists(f):
+            os.remove(f)
     try:
-        rc, so, se = sh([harness, "-i", opsf, "-o", gout], timeout=timeout, env=GOENV)
+        rc, so, se = sh([harness, "-i", opsf, "-o", gout, "-a", annf], timeout=timeout, env=GOENV)
     except subprocess.TimeoutExpired:
         rc, se = -9, "TIMEOUT"
     g = open(gout).read().split("\n") if os.path.exists(gout) else []
@@ -182,7 +184,14 @@ def run_pair(ctx, ops, harness, tag="ops", timeout=1200, driver_args=()):
         g.pop()
     if rc != 0:
         g.append(f"X(harness exit {rc}: {se.strip().splitlines()[-1][:200] if se.strip() else ''})")
-    p = subprocess.run([f"{LEAN}/.lake/build/bin/driver", *driver_args], stdin=open(opsf), capture_output=True, text=True, timeout=timeout)
+    # the model reads the annotated lines (op + now= / choice= oracles written by the harness);
+    # lines the harness never reached (crash) are fed unannotated
+    ann = open(annf).read().split("\n") if os.path.exists(annf) else []
+    if ann and ann[-1] == "":
+        ann.pop()
+    ann = ann + ops[len(ann):]
+    open(annf, "w").write("\n".join(ann) + "\n")
+    p = subprocess.run([f"{LEAN}/.lake/build/bin/driver", *driver_args], stdin=open(annf), capture_output=True, text=True, timeout=timeout)
     m = p.stdout.split("\n")
     if m and m[-1] == "":
         m.pop()
@@ -228,6 +237,45 @@ def correspond_stateless(ctx, harness, ops, tag, label=None, spec_of=None):
         k = ctx.rng.randrange(len(ops))
         ctx.cov["samples"].append({"op": ops[k][:300], "impl": (g[k] if k < len(g) else "")[:300], "model": (m[k] if k < len(m) else "")[:300]})
     return bad
+
+
+def correspond_stream(ctx, harness, ops, tag, label=None, shrink=True):
+    """A stateful stream (first line opens an instance). First divergence is shrunk and reported."""
+    g, m = run_pair(ctx, ops, harness, tag)
+    ctx.cov["evaluations"] += len(ops)
+    ctx.cov["streams"][label or tag] = ctx.cov["streams"].get(label or tag, 0) + len(ops)
+    for i, op in enumerate(ops):
+        if i < len(g) and i < len(m) and g[i] == m[i]:
+            ctx.nontrivial.add(classify(op, g[i]))
+            toks = op.split()
+            if len(toks) > 1:
+                ctx.cov["distribution"][toks[1] if toks[0] == "api" else toks[0]] = ctx.cov["distribution"].get(toks[1] if toks[0] == "api" else toks[0], 0) + 1
+    d = first_diff(g, m, len(ops))
+    if len(ctx.cov["samples"]) < 6 and len(ops) > 3:
+        k = ctx.rng.randrange(1, len(ops) - 2)
+        ctx.cov["samples"].append({"stream": label or tag, "ops": ops[k:k + 3], "impl": g[k:k + 3], "model": m[k:k + 3]})
+    if d is None:
+        return 0
+    if any("UNSUPPORTED" in x for x in m[:d + 1]):
+        ctx.notes.append(f"{tag}: model left its float fragment at line {d} (generator problem, stream ignored from there)")
+        return 0
+    fail = ops[:d + 1]
+    if shrink and len(fail) > 2:
+        def still(cand):
+            cand = [ops[0]] + [c for c in cand if c != ops[0]]
+            gg, mm = run_pair(ctx, cand, harness, tag + "-shrink")
+            dd = first_diff(gg, mm, len(cand))
+            return dd is not None and not any("UNSUPPORTED" in x for x in mm[:dd + 1])
+        body = shrink_sequence(ctx, harness, fail[1:], tag, still)
+        fail = [ops[0]] + body
+    gg, mm = run_pair(ctx, fail, harness, tag + "-final")
+    if first_diff(gg, mm, len(fail)) is None:      # shrunk case did not reproduce (random selectors): keep the prefix
+        fail = ops[:d + 1]
+        gg, mm = g[:d + 1], m[:d + 1]
+    record_violation(ctx, "correspondence", {"ops": fail, "impl": gg, "model": mm, "stream": label or tag,
+                                             "faketime": "harness_ft" in harness,
+                                             "explain": "first divergence between the implementation and the Lean model on this (shrunk) operation sequence"})
+    return 1
 
 
 def classify(op, out):
